@@ -30,6 +30,10 @@ impl TxId {
 //@|        final(self).v() as int == (old(self).v() as int + 1) % 65536,
 //@|        final(self).v() != old(self).v(),   // consecutive requests never share an id
 }
+impl Default for TxId {
+//@fn rodbus/src/common/frame.rs | Default for TxId::default | tags=C11
+//@|    ensures r.v() == 0,
+}
 
 //@item rodbus/src/common/frame.rs | FrameDestination | enumeq
 impl FrameDestination {
